@@ -16,6 +16,8 @@ logging.getLogger("redun").setLevel(logging.CRITICAL)
 NS = "c22t"
 import tempfile
 tmp = tempfile.mkdtemp(prefix="c22_")
+import atexit, shutil
+atexit.register(lambda: shutil.rmtree(tmp, ignore_errors=True))     # nothing is left under /tmp
 
 
 @task(namespace=NS)
